@@ -17,11 +17,25 @@ import (
 	"encoding/json"
 	"fmt"
 	"os"
+	"runtime"
+	"strconv"
 
 	"github.com/smart-core-os/sc-golang/verifharness/lib"
 )
 
 func main() {
+	// The property is about sequential API use; the code under test still runs its Pull pipelines in goroutines
+	// of their own. One P makes "let the pipelines run until they block" (quiesce) mean what it says whatever the
+	// load of the machine, so a snapshot is compared when nobody is in the middle of anything: an asynchronous
+	// writer to a published message (a pipeline filtering a shared event value in place, say) is then seen as a
+	// changed snapshot after the step that triggered it instead of racing with proto.Equal (a Go map written
+	// during the comparison kills the process with an unrecoverable fatal error: no replay at all).
+	// C07_PROCS overrides (development only).
+	procs := 1
+	if v, err := strconv.Atoi(os.Getenv("C07_PROCS")); err == nil && v > 0 {
+		procs = v
+	}
+	runtime.GOMAXPROCS(procs)
 	f := lib.ParseFlags()
 	if f.Facts != "" {
 		if err := writeFacts(f.Facts); err != nil {
@@ -29,6 +43,14 @@ func main() {
 		}
 		return
 	}
+	// crash isolation (supervise.go): the work is done by a child process
+	if os.Getenv("C07_CHILD") == "" && os.Getenv("C07_NO_SUPERVISOR") == "" {
+		if f.Replay != "" {
+			os.Exit(superviseReplay())
+		}
+		os.Exit(supervise(f))
+	}
+	initChild()
 	if f.Replay != "" {
 		os.Exit(replay(f))
 	}
